@@ -6,6 +6,11 @@
   Unlike `BuildGen` (legal calls only append) this handles overwriting: an import edge written onto an
   immediate-parent pair is overwritten by the hierarchy edge within the same `addImport`.  The edge state is read
   through `eflag g a b` (the flag of the first edge a→b), for which `createEdge` is a functional update.
+
+  Since the repair of the level-limit defect (`_is_import_between_known_modules`) an import produces an import edge
+  only if `skipImportEdge lim (knownModules mods) i = false`: always without a limit (`skipImportEdge_none`), with a
+  limit iff importer and importee are known modules (`skipImportEdge_some`), i.e. nodes of the graph built without
+  a limit (`mem_knownModules_iff_nodeOf`).
 -/
 import Bridge.Abs
 import PtaProofs.Lemmas.BuildGen
@@ -419,23 +424,53 @@ theorem Inv1_empty : Inv1 (PGraph.empty : PGraph Str) := by
 
 /-! ### phase 2: the imports -/
 
-/-- an import edge `a → b` has been requested by one of `done` (with both flattened ends nodes) -/
-def Imp (lim : Option Nat) (g : PGraph Str) (done : List ImportRec) (a b : Str) : Prop :=
-  a ≠ b ∧ a ∈ g.nodes ∧ b ∈ g.nodes ∧ ∃ i ∈ done, flattenNode lim i.importer = a ∧ flattenNode lim i.importee = b
+/-- an import edge `a → b` has been requested by one of `done` (with both flattened ends nodes); with a level limit
+    only imports between known modules count (`skipImportEdge … = false`) -/
+def Imp (lim : Option Nat) (known : List Str) (g : PGraph Str) (done : List ImportRec) (a b : Str) : Prop :=
+  a ≠ b ∧ a ∈ g.nodes ∧ b ∈ g.nodes ∧
+    ∃ i ∈ done, skipImportEdge lim known i = false ∧ flattenNode lim i.importer = a ∧ flattenNode lim i.importee = b
 
-def Inv2 (lim : Option Nat) (N : List Str) (done : List ImportRec) (g : PGraph Str) : Prop :=
+def Inv2 (lim : Option Nat) (known : List Str) (N : List Str) (done : List ImportRec) (g : PGraph Str) : Prop :=
   g.nodes = N ∧ U g ∧ closed g ∧
   (∀ a b, hierPair a b → (b ∈ g.nodes → eflag g a b = some true) ∧ (b ∉ g.nodes → eflag g a b = none)) ∧
-  (∀ a b, ¬ hierPair a b → (Imp lim g done a b → eflag g a b = some false) ∧ (¬ Imp lim g done a b → eflag g a b = none))
+  (∀ a b, ¬ hierPair a b → (Imp lim known g done a b → eflag g a b = some false) ∧
+    (¬ Imp lim known g done a b → eflag g a b = none))
 
-theorem step_import (lim : Option Nat) (N : List Str) (done : List ImportRec) (g : PGraph Str) (i : ImportRec)
-    (hg : Inv2 lim N done g) (hX : flattenNode lim i.importer ∈ N) (hpar : i.importeeParents = parentModules i.importee) :
-    Inv2 lim N (done ++ [i]) (addImport lim g i) := by
+/-- the write condition of the (guarded) first stage of `addImport` -/
+def writes1 (lim : Option Nat) (known : List Str) (g : PGraph Str) (i : ImportRec) : Prop :=
+  skipImportEdge lim known i = false ∧ writes lim g i.importer i.importee
+
+/-- the guarded first stage of `addImport` as a functional update -/
+theorem first_eflag (lim : Option Nat) (known : List Str) (g : PGraph Str) (i : ImportRec) (a b : Str) :
+    (writes1 lim known g i ∧ a = flattenNode lim i.importer ∧ b = flattenNode lim i.importee →
+      eflag (if skipImportEdge lim known i then g else createEdge lim g i.importer i.importee false) a b = some false) ∧
+    (¬ (writes1 lim known g i ∧ a = flattenNode lim i.importer ∧ b = flattenNode lim i.importee) →
+      eflag (if skipImportEdge lim known i then g else createEdge lim g i.importer i.importee false) a b = eflag g a b) := by
+  obtain ⟨w1, n1⟩ := createEdge_eflag lim g i.importer i.importee false a b
+  unfold writes1
+  cases hs : skipImportEdge lim known i with
+  | true =>
+    simp only [if_true]
+    exact ⟨fun h => (by cases h.1.1), fun _ => trivial⟩
+  | false =>
+    simp only [Bool.false_eq_true, if_false, true_and]
+    exact ⟨w1, n1⟩
+
+theorem first_U (lim : Option Nat) (known : List Str) (g : PGraph Str) (i : ImportRec) (hU : U g) :
+    U (if skipImportEdge lim known i then g else createEdge lim g i.importer i.importee false) := by
+  split
+  · exact hU
+  · exact createEdge_U lim g _ _ false hU
+
+theorem step_import (lim : Option Nat) (known : List Str) (N : List Str) (done : List ImportRec) (g : PGraph Str)
+    (i : ImportRec)
+    (hg : Inv2 lim known N done g) (hX : flattenNode lim i.importer ∈ N) (hpar : i.importeeParents = parentModules i.importee) :
+    Inv2 lim known N (done ++ [i]) (addImport lim known g i) := by
   obtain ⟨hN, hU, hc, hh, hi⟩ := hg
   subst hN
   -- unfold the three stages
-  let g1 := createEdge lim g i.importer i.importee false
-  have hg1n : g1.nodes = g.nodes := createEdge_nodes lim g _ _ false
+  let g1 := if skipImportEdge lim known i then g else createEdge lim g i.importer i.importee false
+  have hg1n : g1.nodes = g.nodes := addImport_nodes_first lim known g i
   have hpX : ∀ p ∈ parentModules i.importer, flattenNode lim p ∈ g1.nodes := by
     intro p hp
     rw [hg1n]
@@ -448,7 +483,7 @@ theorem step_import (lim : Option Nat) (N : List Str) (done : List ImportRec) (g
     rfl
   let g2 := (consecutive (chain i.importer)).foldl (fun g pc => createEdge lim g pc.1 pc.2 true) g1
   have hg2n : g2.nodes = g.nodes := by rw [edgeFold_nodes]; exact hg1n
-  have hshape : addImport lim g i =
+  have hshape : addImport lim known g i =
       (consecutive (chain i.importee)).foldl (fun g pc => createEdge lim g pc.1 pc.2 true) g2 := by
     unfold addImport
     simp only
@@ -456,15 +491,15 @@ theorem step_import (lim : Option Nat) (N : List Str) (done : List ImportRec) (g
     rfl
   have hc1 : closed g1 := by intro e he s hs; rw [hg1n] at he ⊢; exact hc e he s hs
   have hc2 : closed g2 := by intro e he s hs; rw [hg2n] at he ⊢; exact hc e he s hs
-  have hU1 : U g1 := createEdge_U lim g _ _ false hU
+  have hU1 : U g1 := first_U lim known g i hU
   have hU2 : U g2 := edgeFold_U lim true _ _ hU1
-  have hn3 : (addImport lim g i).nodes = g.nodes := by rw [hshape, edgeFold_nodes]; exact hg2n
-  have hc3 : closed (addImport lim g i) := by intro e he s hs; rw [hn3] at he ⊢; exact hc e he s hs
+  have hn3 : (addImport lim known g i).nodes = g.nodes := by rw [hshape, edgeFold_nodes]; exact hg2n
+  have hc3 : closed (addImport lim known g i) := by intro e he s hs; rw [hn3] at he ⊢; exact hc e he s hs
   refine ⟨hn3, by rw [hshape]; exact edgeFold_U lim true _ _ hU2, hc3, ?_, ?_⟩
   · intro a b hp
     obtain ⟨w3, n3⟩ := chainFold_eflag lim g2 i.importee hc2 a b
     obtain ⟨w2, n2⟩ := chainFold_eflag lim g1 i.importer hc1 a b
-    obtain ⟨w1, n1⟩ := createEdge_eflag lim g i.importer i.importee false a b
+    obtain ⟨w1, n1⟩ := first_eflag lim known g i a b
     rw [← hshape] at w3 n3
     rw [hg2n] at w3 n3
     rw [hg1n] at w2 n2
@@ -479,7 +514,7 @@ theorem step_import (lim : Option Nat) (N : List Str) (done : List ImportRec) (g
         · exact w2 ⟨hp, c2, hb⟩
         · show eflag g2 a b = some true
           rw [n2 (fun h => c2 h.2.1)]
-          by_cases c1 : writes lim g i.importer i.importee ∧ a = flattenNode lim i.importer ∧ b = flattenNode lim i.importee
+          by_cases c1 : writes1 lim known g i ∧ a = flattenNode lim i.importer ∧ b = flattenNode lim i.importee
           · exfalso
             apply c3
             rw [c1.2.2]
@@ -492,57 +527,61 @@ theorem step_import (lim : Option Nat) (N : List Str) (done : List ImportRec) (g
       show eflag g2 a b = none
       rw [n2 (fun h => hb h.2.2)]
       show eflag g1 a b = none
-      rw [n1 (fun h => hb (by rw [h.2.2]; exact h.1.2.2))]
+      rw [n1 (fun h => hb (by rw [h.2.2]; exact h.1.2.2.2))]
       exact o2 hb
   · intro a b hp
     obtain ⟨-, n3⟩ := chainFold_eflag lim g2 i.importee hc2 a b
     obtain ⟨-, n2⟩ := chainFold_eflag lim g1 i.importer hc1 a b
-    obtain ⟨w1, n1⟩ := createEdge_eflag lim g i.importer i.importee false a b
+    obtain ⟨w1, n1⟩ := first_eflag lim known g i a b
     rw [← hshape] at n3
     obtain ⟨o1, o2⟩ := hi a b hp
-    have e3 : eflag (addImport lim g i) a b = eflag g1 a b := by
+    have e3 : eflag (addImport lim known g i) a b = eflag g1 a b := by
       rw [n3 (fun h => hp h.1)]
       show eflag g2 a b = _
       rw [n2 (fun h => hp h.1)]
     rw [e3]
-    have himp : Imp lim (addImport lim g i) (done ++ [i]) a b ↔
-        Imp lim g done a b ∨ (writes lim g i.importer i.importee ∧ a = flattenNode lim i.importer ∧ b = flattenNode lim i.importee) := by
-      unfold Imp writes
+    have himp : Imp lim known (addImport lim known g i) (done ++ [i]) a b ↔
+        Imp lim known g done a b ∨
+          (writes1 lim known g i ∧ a = flattenNode lim i.importer ∧ b = flattenNode lim i.importee) := by
+      unfold Imp writes1 writes
       rw [hn3]
       constructor
-      · rintro ⟨h1, h2, h3, j, hj, h4, h5⟩
+      · rintro ⟨h1, h2, h3, j, hj, h6, h4, h5⟩
         rcases List.mem_append.1 hj with hj | hj
-        · exact Or.inl ⟨h1, h2, h3, j, hj, h4, h5⟩
+        · exact Or.inl ⟨h1, h2, h3, j, hj, h6, h4, h5⟩
         · simp only [List.mem_singleton] at hj
           subst hj
           subst h4 h5
-          exact Or.inr ⟨⟨h1, h2, h3⟩, rfl, rfl⟩
-      · rintro (⟨h1, h2, h3, j, hj, h4, h5⟩ | ⟨⟨h1, h2, h3⟩, rfl, rfl⟩)
-        · exact ⟨h1, h2, h3, j, List.mem_append_left _ hj, h4, h5⟩
-        · exact ⟨h1, h2, h3, i, by simp, rfl, rfl⟩
+          exact Or.inr ⟨⟨h6, h1, h2, h3⟩, rfl, rfl⟩
+      · rintro (⟨h1, h2, h3, j, hj, h6, h4, h5⟩ | ⟨⟨h6, h1, h2, h3⟩, rfl, rfl⟩)
+        · exact ⟨h1, h2, h3, j, List.mem_append_left _ hj, h6, h4, h5⟩
+        · exact ⟨h1, h2, h3, i, by simp, h6, rfl, rfl⟩
     constructor
     · intro h
-      by_cases c1 : writes lim g i.importer i.importee ∧ a = flattenNode lim i.importer ∧ b = flattenNode lim i.importee
+      by_cases c1 : writes1 lim known g i ∧ a = flattenNode lim i.importer ∧ b = flattenNode lim i.importee
       · exact w1 c1
-      · rw [n1 c1]
+      · show eflag g1 a b = some false
+        rw [n1 c1]
         rcases himp.1 h with h | h
         · exact o1 h
         · exact absurd h c1
     · intro h
-      have c1 : ¬ (writes lim g i.importer i.importee ∧ a = flattenNode lim i.importer ∧ b = flattenNode lim i.importee) :=
+      have c1 : ¬ (writes1 lim known g i ∧ a = flattenNode lim i.importer ∧ b = flattenNode lim i.importee) :=
         fun h' => h (himp.2 (Or.inr h'))
+      show eflag g1 a b = none
       rw [n1 c1]
       exact o2 (fun h' => h (himp.2 (Or.inl h')))
 
-theorem imports_inv (lim : Option Nat) (N : List Str) (imps : List ImportRec)
+theorem imports_inv (lim : Option Nat) (known : List Str) (N : List Str) (imps : List ImportRec)
     (himp : ∀ i ∈ imps, flattenNode lim i.importer ∈ N ∧ i.importeeParents = parentModules i.importee) :
-    ∀ (done : List ImportRec) (g : PGraph Str), Inv2 lim N done g → Inv2 lim N (done ++ imps) (imps.foldl (addImport lim) g) := by
+    ∀ (done : List ImportRec) (g : PGraph Str), Inv2 lim known N done g →
+      Inv2 lim known N (done ++ imps) (imps.foldl (addImport lim known) g) := by
   induction imps with
   | nil => intro done g hg; simpa using hg
   | cons i is ih =>
     intro done g hg
     simp only [List.foldl_cons]
-    have h1 := step_import lim N done g i hg (himp i List.mem_cons_self).1 (himp i List.mem_cons_self).2
+    have h1 := step_import lim known N done g i hg (himp i List.mem_cons_self).1 (himp i List.mem_cons_self).2
     have := ih (fun j hj => himp j (List.mem_cons_of_mem _ hj)) (done ++ [i]) _ h1
     simpa using this
 
@@ -551,20 +590,46 @@ theorem imports_inv (lim : Option Nat) (N : List Str) (imps : List ImportRec)
 /-- the nodes `buildGraph` creates for the module list -/
 def NodeOf (lim : Option Nat) (mods : List Str) (s : Str) : Prop := ∃ m ∈ mods, s ∈ chain (flattenNode lim m)
 
+/-- the known modules are exactly the nodes of the graph built WITHOUT a limit -/
+theorem mem_knownModules_iff_nodeOf (mods : List Str) (s : Str) : s ∈ knownModules mods ↔ NodeOf none mods s := by
+  rw [mem_knownModules]
+  unfold NodeOf chain flattenNode
+  simp only [List.mem_append, List.mem_singleton]
+  constructor
+  · rintro (h | ⟨m, hm, hp⟩)
+    · exact ⟨s, h, Or.inr rfl⟩
+    · exact ⟨m, hm, Or.inl hp⟩
+  · rintro ⟨m, hm, hp | rfl⟩
+    · exact Or.inr ⟨m, hm, hp⟩
+    · exact Or.inl hm
+
+theorem skip_false_of_nodeOf (lim : Option Nat) (mods : List Str) (i : ImportRec)
+    (h1 : NodeOf none mods i.importer) (h2 : NodeOf none mods i.importee) :
+    skipImportEdge lim (knownModules mods) i = false :=
+  skipImportEdge_false_of_mem lim _ i ((mem_knownModules_iff_nodeOf mods _).2 h1)
+    ((mem_knownModules_iff_nodeOf mods _).2 h2)
+
+theorem nodeOf_of_skip_false (k : Nat) (mods : List Str) (i : ImportRec)
+    (h : skipImportEdge (some k) (knownModules mods) i = false) :
+    NodeOf none mods i.importer ∧ NodeOf none mods i.importee := by
+  rw [skipImportEdge_some] at h
+  exact ⟨(mem_knownModules_iff_nodeOf mods _).1 h.1, (mem_knownModules_iff_nodeOf mods _).1 h.2⟩
+
 theorem buildGraph_char (mods : List Str) (imps : List ImportRec) (lim : Option Nat)
     (himp : ∀ i ∈ imps, NodeOf lim mods (flattenNode lim i.importer) ∧ i.importeeParents = parentModules i.importee) :
     (∀ s, s ∈ (buildGraph mods imps lim).nodes ↔ NodeOf lim mods s) ∧
     (∀ a b, (⟨a, b, true⟩ : Edge Str) ∈ (buildGraph mods imps lim).edges ↔ hierPair a b ∧ NodeOf lim mods b) ∧
     (∀ a b, (⟨a, b, false⟩ : Edge Str) ∈ (buildGraph mods imps lim).edges ↔
       ¬ hierPair a b ∧ a ≠ b ∧ NodeOf lim mods a ∧ NodeOf lim mods b ∧
-      ∃ i ∈ imps, flattenNode lim i.importer = a ∧ flattenNode lim i.importee = b) := by
+      ∃ i ∈ imps, skipImportEdge lim (knownModules mods) i = false ∧
+        flattenNode lim i.importer = a ∧ flattenNode lim i.importee = b) := by
   obtain ⟨p1, p1n⟩ := modules_inv lim mods PGraph.empty Inv1_empty
   have hn0 : ∀ s, s ∈ (addAllModules lim PGraph.empty mods).nodes ↔ NodeOf lim mods s := by
     intro s
     rw [p1n]
     simp [PGraph.empty, NodeOf]
   obtain ⟨hU1, hc1, hf1⟩ := p1
-  have h2 : Inv2 lim (addAllModules lim PGraph.empty mods).nodes [] (addAllModules lim PGraph.empty mods) := by
+  have h2 : Inv2 lim (knownModules mods) (addAllModules lim PGraph.empty mods).nodes [] (addAllModules lim PGraph.empty mods) := by
     refine ⟨rfl, hU1, hc1, ?_, ?_⟩
     · intro a b hp
       exact ⟨fun hb => (hf1 a b).1 ⟨hp, hb⟩, fun hb => (hf1 a b).2 (fun h => hb h.2)⟩
@@ -572,7 +637,7 @@ theorem buildGraph_char (mods : List Str) (imps : List ImportRec) (lim : Option 
       constructor
       · rintro ⟨-, -, -, j, hj, -⟩; cases hj
       · intro _; exact (hf1 a b).2 (fun h => hp h.1)
-  have h3 := imports_inv lim _ imps (fun i hi => ⟨(hn0 _).2 (himp i hi).1, (himp i hi).2⟩) [] _ h2
+  have h3 := imports_inv lim (knownModules mods) _ imps (fun i hi => ⟨(hn0 _).2 (himp i hi).1, (himp i hi).2⟩) [] _ h2
   simp only [List.nil_append] at h3
   obtain ⟨hN, hU, hc, hh, hi⟩ := h3
   have hnodes : ∀ s, s ∈ (buildGraph mods imps lim).nodes ↔ NodeOf lim mods s := by
@@ -595,7 +660,7 @@ theorem buildGraph_char (mods : List Str) (imps : List ImportRec) (lim : Option 
         rw [this] at h; cases h
       · exfalso
         unfold buildGraph at h
-        by_cases hI : Imp lim (imps.foldl (addImport lim) (addAllModules lim PGraph.empty mods)) imps a b
+        by_cases hI : Imp lim (knownModules mods) (imps.foldl (addImport lim (knownModules mods)) (addAllModules lim PGraph.empty mods)) imps a b
         · rw [(hi a b hp).1 hI] at h; cases h
         · rw [(hi a b hp).2 hI] at h; cases h
     · rintro ⟨hp, hb⟩
@@ -608,13 +673,13 @@ theorem buildGraph_char (mods : List Str) (imps : List ImportRec) (lim : Option 
       unfold buildGraph at h
       by_cases hp : hierPair a b
       · exfalso
-        by_cases hb : b ∈ (imps.foldl (addImport lim) (addAllModules lim PGraph.empty mods)).nodes
+        by_cases hb : b ∈ (imps.foldl (addImport lim (knownModules mods)) (addAllModules lim PGraph.empty mods)).nodes
         · rw [(hh a b hp).1 hb] at h; cases h
         · rw [(hh a b hp).2 hb] at h; cases h
       · refine ⟨hp, ?_⟩
         apply Classical.byContradiction
         intro hI
-        have : ¬ Imp lim (imps.foldl (addImport lim) (addAllModules lim PGraph.empty mods)) imps a b := hI
+        have : ¬ Imp lim (knownModules mods) (imps.foldl (addImport lim (knownModules mods)) (addAllModules lim PGraph.empty mods)) imps a b := hI
         rw [(hi a b hp).2 this] at h; cases h
     · rintro ⟨hp, h1, h2, h3, h4⟩
       exact (hi a b hp).1 ⟨h1, h2, h3, h4⟩
